@@ -92,6 +92,12 @@ def run_impl(case):
     # operands are built outside the measured call; an invalid operand is a generator bug
     A = build(a)
     B = build(b) if b is not None else None
+    if case.get('pre'):
+        try:
+            A.to(case['pre'], inplace=True)
+        except Exception as e:  # noqa
+            n = type(e).__name__
+            return ('E', n if n in EXN else 'Other:' + n)
     if op == 'QAdd':
         return outcome(lambda: A + B)
     if op == 'QSub':
@@ -145,7 +151,8 @@ def case_coq(case, o):
         opc = f'({op} {coq_str(case["u"])})'
     else:
         opc = op
-    return f'{{| c_op := {opc}; c_a := {lit_coq(case["a"])}; c_b := {lit_coq(case["b"])}; c_out := {out_coq(o)} |}}'
+    pre = f'(Some {coq_str(case["pre"])})' if case.get('pre') else 'None'
+    return f'{{| c_op := {opc}; c_a := {lit_coq(case["a"])}; c_b := {lit_coq(case["b"])}; c_pre := {pre}; c_out := {out_coq(o)} |}}'
 
 
 def valid_q(rng, kind):
@@ -258,6 +265,12 @@ def random_cases(rng, n):
             k = rng.choice(KINDS)
             u = rng.choice(units_of(k)) if rng.random() < 0.9 else rng.choice(units_of(rng.choice(KINDS)))
             cases.append(dict(op='QCtor', a=('Q', k, rand_value(rng, k, allow_invalid=True), u), b=None, tag='ctor'))
+    # one case in five with a quantity on the left: that operand is first converted IN PLACE to another unit of its kind (an object's
+    # arithmetic, comparisons and further conversions must not depend on how it came to its present value and unit)
+    for c in cases:
+        if c['op'] not in ('QCtor', 'QRMul') and c['a'] is not None and c['a'][0] == 'Q' and rng.random() < 0.2:
+            c['pre'] = rng.choice(units_of(c['a'][1]))
+            c['tag'] = c['tag'] + '+inplace'
     return cases
 
 
